@@ -516,25 +516,42 @@ theorem applyAct_NP_dropValue (s : State) (fh fw : List Nat) (i : Nat) (h : s.NP
 theorem applyAct_NP_makeMut (s : State) (fh fw : List Nat) (r : Nat) (h : s.NP) :
     (applyAct s fh fw (.makeMut r)).NP := by
   simp only [applyAct]
-  repeat' split
-  · rename_i o _ ob hc _ v hv hs
-    refine NP_of h (by simp) (fun f hf => ?_) ?_ (fun v hv => Or.inl (by simpa using hv))
-    · simp only [push_stack, List.cons_append, List.nil_append, List.mem_cons] at hf
-      rcases hf with rfl | hf
-      · exact Or.inr trivial
-      · exact Or.inl (by simpa using hf)
-    · show HOK ((s.cloneHandles v).alloc _).heap
-      exact HOK_alloc (by simpa using h.heap) (np_with_vid _ (h.val_of_cell hc hv))
-  · rename_i o _ ob hc _ v hv hs hw
-    refine NP_of h (by simp) (fun f hf => Or.inl (by simpa using hf)) ?_
-      (fun v hv => Or.inl (by simpa using hv))
-    rw [emit_heap]
-    refine HOK_giveUp _ ?_
-    show HOK (s.alloc v).heap
-    exact HOK_alloc h.heap (h.val_of_cell hc hv)
-  all_goals first
-    | exact h
-    | exact NP_same h (by simp) (by simp) (by simp) (by simp)
+  split
+  · rename_i o _
+    split
+    · rename_i ob hc
+      split
+      · rename_i v hv
+        split
+        · have hvn : v.np := h.val_of_cell hc hv
+          by_cases hsh : v.shallow = true
+          · simp only [hsh, if_true]
+            refine NP_of h (by simp) (fun f hf => ?_) ?_ (fun v hv => Or.inl (by simpa using hv))
+            · simp only [push_stack, List.cons_append, List.nil_append, List.mem_cons] at hf
+              rcases hf with rfl | hf
+              · exact Or.inr trivial
+              · exact Or.inl (by simpa using hf)
+            · show HOK (s.alloc _).heap
+              exact HOK_alloc h.heap hvn
+          · simp only [hsh]
+            refine NP_of h (by simp) (fun f hf => ?_) ?_ (fun v hv => Or.inl (by simpa using hv))
+            · simp only [push_stack, List.cons_append, List.nil_append, List.mem_cons] at hf
+              rcases hf with rfl | hf
+              · exact Or.inr trivial
+              · exact Or.inl (by simpa using hf)
+            · show HOK ((s.cloneHandles v).alloc _).heap
+              exact HOK_alloc (by simpa using h.heap) hvn
+        · split
+          · refine NP_of h (by simp) (fun f hf => Or.inl (by simpa using hf)) ?_
+              (fun v hv => Or.inl (by simpa using hv))
+            rw [emit_heap]
+            refine HOK_giveUp _ ?_
+            show HOK (s.alloc v).heap
+            exact HOK_alloc h.heap (h.val_of_cell hc hv)
+          · exact NP_same h (by simp) (by simp) (by simp) (by simp)
+      · exact NP_same h (by simp) (by simp) (by simp) (by simp)
+    · exact NP_same h (by simp) (by simp) (by simp) (by simp)
+  · exact NP_same h (by simp) (by simp) (by simp) (by simp)
 
 theorem applyAct_NP (s : State) (fh fw : List Nat) (a : Act) (h : s.NP) (ha : a.noPanic) :
     (applyAct s fh fw a).NP := by
